@@ -205,6 +205,9 @@ func (in *Interp) writeTo(w Value, s Value) Value {
 		return tuple(mkInt(0, 64), nilErr)
 	}
 	iv := w.R.(*IfaceV)
+	if iv.T.String() == "*os.File" {
+		return tuple(in.strLenV(s), nilErr) // diagnostics written to a file descriptor are discarded
+	}
 	sel := in.Prog.MethodSets.MethodSet(iv.T).Lookup(nil, "Write")
 	if sel == nil {
 		unsupported("no Write method on %s", iv.T)
